@@ -22,6 +22,7 @@ type c09Case struct {
 	Optional   []bool   `json:"optional"`
 	AllowOther bool     `json:"allowOther"`
 	MaxSubj    int      `json:"maxSubj,omitempty"`
+	Alpha      int      `json:"alpha,omitempty"` // which pair of alphabets the subjects are drawn from (c09Alphabets)
 	// replay of one pure pair / pipeline
 	Subject []string `json:"subject,omitempty"`
 	Pos     int      `json:"pos,omitempty"`
@@ -34,7 +35,15 @@ type c09Case struct {
 var c09Alphabet = []string{"CN", "O", "C", "1.2.3.4"}
 var c09SubjAlphabet = []string{"CN", "O", "C", "1.2.3.4", "L"}
 
-func c09Subjects(maxLen int, f func(s []string)) {
+// second pair of alphabets: two different custom OIDs next to one short name
+var c09Alphabet2 = []string{"1.2.3.4", "2.5.4.97", "CN"}
+var c09SubjAlphabet2 = []string{"1.2.3.4", "2.5.4.97", "CN", "L"}
+
+func c09Subjects(alpha, maxLen int, f func(s []string)) {
+	subjAlphabet := c09SubjAlphabet
+	if alpha == 1 {
+		subjAlphabet = c09SubjAlphabet2
+	}
 	var rec func(cur []string)
 	rec = func(cur []string) {
 		if len(cur) > 0 {
@@ -43,7 +52,7 @@ func c09Subjects(maxLen int, f func(s []string)) {
 		if len(cur) == maxLen {
 			return
 		}
-		for _, a := range c09SubjAlphabet {
+		for _, a := range subjAlphabet {
 			rec(append(cur, a))
 		}
 	}
@@ -69,6 +78,24 @@ func c09Enumerate(tier string, yield func(any)) {
 		}
 	}
 	rec(nil, nil)
+	// the same over the second pair of alphabets (two custom OIDs)
+	var rec2 func(attrs []string, opt []bool)
+	rec2 = func(attrs []string, opt []bool) {
+		if len(attrs) > 0 {
+			for _, ao := range []bool{false, true} {
+				yield(&c09Case{Kind: "pure", HasList: true, Attrs: append([]string{}, attrs...), Optional: append([]bool{}, opt...), AllowOther: ao, MaxSubj: maxS, Alpha: 1})
+			}
+		}
+		if len(attrs) == maxP {
+			return
+		}
+		for _, a := range c09Alphabet2 {
+			for _, o := range []bool{false, true} {
+				rec2(append(attrs, a), append(opt, o))
+			}
+		}
+	}
+	rec2(nil, nil)
 	// pipeline
 	profs := []c09Case{
 		{Attrs: []string{"CN"}, Optional: []bool{false}},
@@ -194,7 +221,7 @@ func c09Exec(x *engine.Ctx, cc any) {
 		return
 	}
 	var n int64
-	c09Subjects(c.MaxSubj, func(s []string) {
+	c09Subjects(c.Alpha, c.MaxSubj, func(s []string) {
 		n++
 		one(s)
 	})
@@ -285,7 +312,7 @@ func init() {
 	register(&engine.Check{
 		ID:          "C09",
 		Level:       "model_checking",
-		Rule:        "every profile = (attribute list of length 0..4 over {CN,O,C,1.2.3.4} x optional flag) x allowOther, plus the absent list (9363 profiles) x every subject of length 1..5 over {CN,O,C,1.2.3.4,L} (3905): config.Validate on the real parsed RDN sequence vs. the reference predicate transcribed from the statement, one profile object shared by all its subjects as in a run and compared with its definition after every verdict; plus 7 profiles x 9 subjects x 3 positions of the constrained entity in a root->mid->leaf chain through the whole file pipeline (rejected => planning error, empty write log), on a fresh directory and on a directory first generated under a profile of the same name without subject rules and then run with default / -m only / all four reasons / -a. Pairs are distinct by construction; states = profiles, transitions = Validate calls / runs",
+		Rule:        "every profile = (attribute list of length 0..4 over {CN,O,C,1.2.3.4} x optional flag) x allowOther, plus the absent list (9363 profiles) x every subject of length 1..5 over {CN,O,C,1.2.3.4,L} (3905), and the same product over {1.2.3.4, 2.5.4.97, CN} with subjects over those plus L (3108 profiles x 1364 subjects): config.Validate on the real parsed RDN sequence vs. the reference predicate transcribed from the statement, one profile object shared by all its subjects as in a run and compared with its definition after every verdict; plus 7 profiles x 9 subjects x 3 positions of the constrained entity in a root->mid->leaf chain through the whole file pipeline (rejected => planning error, empty write log), on a fresh directory and on a directory first generated under a profile of the same name without subject rules and then run with default / -m only / all four reasons / -a. Pairs are distinct by construction; states = profiles, transitions = Validate calls / runs",
 		Bound:       map[string]string{"profile length": "<=4", "subject length": "<=5", "alphabet": "3 short names + 1 custom OID + 1 foreign attribute"},
 		Assumptions: []string{"profile attributes that the schema allows but no table resolves (PC, DC, T, UID, MAIL) are outside the statement"},
 		Budget:      budgets(quickBudget, thoroughBudget),
